@@ -55,6 +55,16 @@ func runDump(w *World, args []string) {
 				}
 			}
 		}
+	case "facts":
+		for _, k := range w.KindsL {
+			if k.Len == nil || k.Marshal == nil {
+				continue
+			}
+			v := w.compareSize(k)
+			if i := strings.Index(v.Note, " under {"); i >= 0 {
+				fmt.Printf("%-40s %s\n", k.Name, v.Note[i+7:])
+			}
+		}
 	case "ctors":
 		for _, k := range w.KindsL {
 			if len(args) > 1 && !strings.Contains(k.Name, args[1]) {
